@@ -179,6 +179,15 @@ func checkFull(c Case) (class, what, observed string, e expect) {
 		if pan != "" {
 			class, what = "panic"+suffix(p), fmt.Sprintf("ParseAccept(%s %s): panic: %s", key, headerText(p), pan)
 		}
+	case "parse1", "parse2":
+		class, what, observed = checkParser(c)
+		e = expect{anyMember: true, why: "the reference negotiation over the returned specs must choose what the header admits; q order as numbers"}
+	case "bindvalid":
+		a := buildAPI(c.Offers, c.Default)
+		res := runBindValid(a, p)
+		class, what = judgeBindValid(p, a, c.Offers, c.Default, res)
+		observed = res.String()
+		e = expect{anyMember: true, why: "406 without binding iff the header admits none of the route's types"}
 	case "history":
 		class, what, _ = checkHistory(c, nil, nil)
 		observed = "see below"
@@ -413,6 +422,7 @@ func typeSweep(r *report.R, name string, withAbsent bool, sp space, ols []offerL
 		nHeaders.Add(1)
 		c := Case{Via: "type", Absent: h.absent, Lines: h.lines, WS: h.ws}
 		p := prepare(&c)
+		parsersOnHeader(r.Fail, c, p, t)
 		for oi := range ols {
 			ol := &ols[oi]
 			for _, def := range defs {
@@ -473,6 +483,7 @@ func encodingSweep(r *report.R, name string, withAbsent bool, sp space, ols [][]
 		}
 		c := Case{Via: "encoding", Absent: h.absent, Lines: h.lines, WS: h.ws}
 		p := prepare(&c)
+		parsersOnHeader(r.Fail, c, p, t)
 		for _, ol := range ols {
 			got, pan := runEncoding(p, ol)
 			cl, what, e := judgeEncoding(p, ol, got, pan)
@@ -538,6 +549,18 @@ func handlerSweep(r *report.R, name string, configs []Case, hs []hdr) {
 			}
 			if cl != "" {
 				r.Fail(cl, what, c)
+			}
+			// the same request through the typed-server entry point
+			bres := runBindValid(a, p)
+			t.evals++
+			if p.structured && p.may == "" {
+				t.nontrivial++
+			}
+			t.add(fmt.Sprintf("bindvalid/%d", bres.code))
+			if cl, what := judgeBindValid(p, a, cfg.Offers, cfg.Default, bres); cl != "" {
+				cb := c
+				cb.Via = "bindvalid"
+				r.Fail(cl, what, cb)
 			}
 			if (ci*len(hs)+i+int(uint64(r.Seed)%4099))%4099 == 11 && sampled.Add(1) <= 3 {
 				r.Sample(map[string]any{"case": c, "header": p.lines, "observed": res.String()})
@@ -630,6 +653,22 @@ func rawSweep(r *report.R, name string, sp rawSpace) {
 					t.add(fmt.Sprintf("raw/parsed-%d-ranges", len(specs)))
 					t.nontrivial++
 				}
+			}
+		}
+		for _, key := range []string{"Accept", "Accept-Encoding"} {
+			_, pan := runParse2(p, key)
+			t.evals++
+			if pan == "" && key == "Accept" { // ParseList and ParseValueAndParams do not depend on the key
+				pan = runListParsers(p, key)
+				t.evals += 2
+			}
+			if pan != "" {
+				cc := c
+				cc.Via, cc.Default = "parse2", ""
+				if key != "Accept" {
+					cc.Default = key
+				}
+				r.Fail("panic", fmt.Sprintf("ParseAccept2 / ParseList / ParseValueAndParams(%s %s): panic: %s", key, headerText(p), pan), cc)
 			}
 		}
 		for oi := range typeOffers {
@@ -854,5 +893,5 @@ func main() {
 	r.Assume("the reference negotiation of props/c07/model.go is the meaning of the property text: score of an offer = maximum over the matching ranges of positive q of (exact rational q, specificity), first offer of maximal score wins, default when no offer has a score, first offer without header",
 		"a range carrying media-type parameters is judged under both readings (parameters ignored / must equal the offer's parameters); q spellings outside (0|1)[.digits], q above 1, distinct q values closer than 1e-9, an Accept header without any range and Accept-Encoding corner cases (no header, coding refused by name but admitted by *) are judged for totality and membership only",
 		"handler level: the declared media types are a/b, a/c, c/d without parameters and a producer is registered for each; the offer order is the one the running instance holds (go-openapi/analysis returns the declared list in map order), read from the matched route")
-	r.Finish("every abstract header of the stated element alphabets and lengths x whitespace variants x line splits x every ordered offer list (with duplicates) up to the stated length x default present/absent, each negotiated by the real code and compared with the reference; every byte string up to the stated length as a verbatim header value for totality and membership; every API configuration x header through the real API handler. One evaluation = one call of NegotiateContentType, Context.ResponseFormat, NegotiateContentEncoding, ParseAccept or one request through the handler. Non-trivial = the oracle was fully decisive and the mechanism was reached: structured header in which at least one range matches at least one offer (type/format/encoding), every fully judged request (handler), at least one range parsed (raw), every step executed after another step of its sequence (history). Long headers: 31..1000 ranges of which one decides, at the end, in the middle or first, on one or many header lines, through all entry points. History dimension: every ordered pair (thorough: also every ordered triple of a 78-case sub-alphabet without handler steps) of a 198-case collision alphabet (header-line lists that share lines, same header and offers with different defaults, same header with different offers, the four entry points), plus the whole list forward and backward, each sequence executed in one process under its own neutral salt range and on one shared API instance per configuration; each step must give exactly what it gives when run alone. The sweeps are disjoint by construction (filters notInS1 / withParams, distinct entry points, renderings deduplicated by text), so no (entry point, header text, offers, default) tuple is evaluated twice", !budgetCut.Load())
+	r.Finish("every abstract header of the stated element alphabets and lengths x whitespace variants x line splits x every ordered offer list (with duplicates) up to the stated length x default present/absent, each negotiated by the real code and compared with the reference; every byte string up to the stated length as a verbatim header value for totality and membership; every API configuration x header through the real API handler. One evaluation = one call of NegotiateContentType, Context.ResponseFormat, NegotiateContentEncoding, ParseAccept, ParseAccept2, ParseList, ParseValueAndParams, Context.BindValidRequest or one request through the handler. Both parsers are judged on every structured header: the reference negotiation over the specs they return must choose what the header admits, and their q values must be ordered as the numbers written. Non-trivial = the oracle was fully decisive and the mechanism was reached: structured header in which at least one range matches at least one offer (type/format/encoding), every fully judged request (handler), at least one range parsed (raw), every step executed after another step of its sequence (history). Long headers: 31..1000 ranges of which one decides, at the end, in the middle or first, on one or many header lines, through all entry points. History dimension: every ordered pair (thorough: also every ordered triple of a 78-case sub-alphabet without handler steps) of a 198-case collision alphabet (header-line lists that share lines, same header and offers with different defaults, same header with different offers, the four entry points), plus the whole list forward and backward, each sequence executed in one process under its own neutral salt range and on one shared API instance per configuration; each step must give exactly what it gives when run alone. The sweeps are disjoint by construction (filters notInS1 / withParams, distinct entry points, renderings deduplicated by text), so no (entry point, header text, offers, default) tuple is evaluated twice", !budgetCut.Load())
 }
